@@ -1025,6 +1025,29 @@ pub fn generate_op_fastpath(rng: &mut Rng, n: usize, _tier: &str) -> Vec<String>
             }
         }
     }
+    // shifts that move out all, all but one, or all but eight of the operand's bits, for operands with the
+    // top bit set and clear (ash is signed, lsh is not: their "everything shifted out" thresholds differ)
+    for name in ["op_ash", "op_lsh"] {
+        for flags in [0u32, 0x2000] {
+            for len in [1usize, 2, 4, 8, 9, 16, 17] {
+                for first in [0x80u8, 0x7f, 0xff, 0x01, 0x40] {
+                    for fill in [0x00u8, 0xff] {
+                        let mut b = vec![fill; len];
+                        b[0] = first;
+                        let bits = 8 * len as i128;
+                        for d in [-9i128, -8, -7, -2, -1, 0, 1] {
+                            for sign in [-1i128, 1] {
+                                if sign == 1 && bits + d > 40 {
+                                    continue;
+                                }
+                                push(name, flags, vec![T::Atom(b.clone()), int(sign * (bits + d))]);
+                            }
+                        }
+                    }
+                }
+            }
+        }
+    }
     for name in ["op_gr", "op_logand", "op_logior", "op_logxor", "op_lognot", "op_ash", "op_lsh", "op_div", "op_divmod", "op_mod"] {
         for flags in [0u32, 0x2000] {
             for _ in 0..n.max(20) {
